@@ -22,6 +22,8 @@ type solver struct {
 	out     *bufio.Reader
 	depth   int
 	decl    map[string]bool
+	facts   map[string]int // assertions currently on the stack (text -> multiplicity)
+	Saved   int            // feasibility questions answered from the facts without a query
 	Queries int
 	Time    time.Duration
 	log     io.Writer
@@ -34,7 +36,7 @@ func newSolver(log io.Writer) *solver {
 	if err := cmd.Start(); err != nil {
 		panic(err)
 	}
-	s := &solver{cmd: cmd, in: in, w: bufio.NewWriterSize(in, 1<<16), out: bufio.NewReaderSize(outp, 1<<16), decl: map[string]bool{}, log: log, stack: [][]string{nil}}
+	s := &solver{cmd: cmd, in: in, w: bufio.NewWriterSize(in, 1<<16), out: bufio.NewReaderSize(outp, 1<<16), decl: map[string]bool{}, facts: map[string]int{}, log: log, stack: [][]string{nil}}
 	s.oneshot = os.Getenv("SYMGO_ONESHOT") != ""
 	s.send("(set-option :global-decls true)")
 	s.send("(set-option :produce-models true)")
@@ -59,10 +61,108 @@ func (s *solver) declare(name, sort string) {
 }
 
 func (s *solver) push() { s.depth++; s.stack = append(s.stack, nil); s.send("(push 1)") }
-func (s *solver) pop()  { s.depth--; s.stack = s.stack[:len(s.stack)-1]; s.send("(pop 1)") }
+func (s *solver) pop() {
+	s.depth--
+	for _, e := range s.stack[len(s.stack)-1] {
+		if s.facts[e]--; s.facts[e] <= 0 {
+			delete(s.facts, e)
+		}
+	}
+	s.stack = s.stack[:len(s.stack)-1]
+	s.send("(pop 1)")
+}
 func (s *solver) assert(e string) {
-	s.stack[len(s.stack)-1] = append(s.stack[len(s.stack)-1], e)
 	s.send("(assert " + e + ")")
+	s.addFact(e)
+}
+
+// addFact records e, and the conjuncts of a top-level conjunction, as facts of the current level.
+func (s *solver) addFact(e string) {
+	s.stack[len(s.stack)-1] = append(s.stack[len(s.stack)-1], e)
+	s.facts[e]++
+	if strings.HasPrefix(e, "(and ") {
+		for _, a := range sexprArgs(e) {
+			s.addFact(a)
+		}
+	}
+}
+
+// sexprArgs splits "(op a1 a2 ...)" into its arguments.
+func sexprArgs(e string) []string {
+	var out []string
+	depth, start := 0, -1
+	body := e[1 : len(e)-1]
+	// skip the operator
+	i := strings.IndexByte(body, ' ')
+	if i < 0 {
+		return nil
+	}
+	for j := i; j < len(body); j++ {
+		switch c := body[j]; {
+		case c == '(':
+			if depth == 0 && start < 0 {
+				start = j
+			}
+			depth++
+		case c == ')':
+			depth--
+			if depth == 0 && start >= 0 {
+				out = append(out, body[start:j+1])
+				start = -1
+			}
+		case c == ' ':
+			if depth == 0 && start >= 0 {
+				out = append(out, body[start:j])
+				start = -1
+			}
+		default:
+			if depth == 0 && start < 0 {
+				start = j
+			}
+		}
+	}
+	if start >= 0 {
+		out = append(out, body[start:])
+	}
+	return out
+}
+
+func swapEq(e string) string {
+	if strings.HasPrefix(e, "(= ") {
+		if a := sexprArgs(e); len(a) == 2 {
+			return "(= " + a[1] + " " + a[0] + ")"
+		}
+	}
+	return ""
+}
+
+// implied answers "is e consistent with the stack?" syntactically when e or its negation is literally
+// one of the assertions on the stack (the stack itself is known to be satisfiable).
+func (s *solver) implied(e string) (known, feasible bool) {
+	has := func(f string) bool {
+		if s.facts[f] > 0 {
+			return true
+		}
+		if strings.HasPrefix(f, "(not (= ") {
+			if sw := swapEq(f[5 : len(f)-1]); sw != "" && s.facts["(not "+sw+")"] > 0 {
+				return true
+			}
+		} else if sw := swapEq(f); sw != "" && s.facts[sw] > 0 {
+			return true
+		}
+		return false
+	}
+	if has(e) {
+		return true, true
+	}
+	neg := "(not " + e + ")"
+	if strings.HasPrefix(e, "(not ") {
+		neg = e[5 : len(e)-1]
+	}
+	if has(neg) {
+		return true, false
+	}
+	return false, false
 }
 
 func (s *solver) script(extra string) string {
